@@ -8,7 +8,11 @@ META = {
                  "shortest form, announces the size it writes, and decodes back (round-trip with arbitrary trailing bytes); for every byte "
                  "string the decoder equals an independently written RFC parser, is total and consumes 1/2/4/8 bytes. The model is tied to "
                  "/repo on every run: table rows, masks and dispatch are re-extracted from the Rust source and proved equal to the pinned "
-                 "model (bridge lemmas), and the Lean driver is run against the real s2n-codec/s2n-quic-core code on generated inputs."),
+                 "model (bridge lemmas), and the Lean driver is run against the real s2n-codec/s2n-quic-core code on generated inputs. "
+                 "Packet headers (long/short/Retry/Version Negotiation, C05PacketHeader): the model of ProtectedPacket::decode is proved total, "
+                 "equal to an RFC 9000 section 17 reference parser except at two exhibited points (known findings C05-PH1/PH2: Initial "
+                 "connection IDs > 20 bytes accepted by the decoder and dropped later by the endpoint; Version Negotiation with IDs > 20 "
+                 "bytes rejected), and the encoders round-trip with the announced length."),
         "note": ("Trusted: Lean kernel (axioms propext, Classical.choice, Quot.sound only), tools/extract.py, the vh-core harness and python "
                  "oracles/generators. Modelled not verified: unsafe pointer writes (compared byte-for-byte by the differential run), zero-copy lifetimes."),
         "technique": "Lean 4 theorem proving (round-trip/agreement theorems) + regenerated-model bridge lemmas + differential correspondence",
